@@ -81,7 +81,8 @@ def replay_one(ctx):
     sg = repo.load(ctx.repo)
     rep = core.Report(ctx, "model_checking")
     try:
-        tr, info = TR.run_trainer(sg, cfgd["E"], cfgd["NB"], cfgd["NV"], cfgd.get("NT", 1), cfgd.get("evaluator", False), cfgd.get("callbacks", False), cfgd.get("seed", 1))
+        tr, info = TR.run_trainer(sg, cfgd["E"], cfgd["NB"], cfgd["NV"], cfgd.get("NT", 1), cfgd.get("evaluator", False), cfgd.get("callbacks", False), cfgd.get("seed", 1),
+                                  do_fit=cfgd.get("do_fit", True), ambient=cfgd.get("ambient"))
     except Exception as e:  # noqa: BLE001
         print("DIVERGENCE fit raised", type(e).__name__, e)
         print("VIOLATION property=%s replay=%s" % (ctx.pid, ctx.replay))
@@ -143,6 +144,20 @@ def run(ctx):
     for NT in (1, 2):
         seed += 1
         tr, info = TR.run_trainer(sg, 1, 1, 0, NT, False, False, seed, do_fit=False)
+        traces.append(tr)
+        infos.append(info)
+    # the caller's own gradient mode: test() inside a no_grad block of the caller (after fit, and alone); a Trainer built
+    # inside a no_grad block and used outside it
+    for amb, E, NB, NV, do_fit in (("test_in_no_grad", 1, 2, 1, True), ("test_in_no_grad", 1, 1, 0, False), ("ctor_in_no_grad", 2, 2, 1, True),
+                                   ("ctor_in_no_grad", 1, 1, 2, True), ("ctor_in_no_grad", 1, 1, 0, False)):
+        seed += 1
+        try:
+            tr, info = TR.run_trainer(sg, E, NB, NV, 1 + (seed % 2), False, False, seed, do_fit=do_fit, ambient=amb)
+        except Exception as e:  # noqa: BLE001
+            rep.case("run:%s" % ((amb, E, NB, NV, do_fit),))
+            rep.violation("fit-raised:%s:ambient=%s" % (type(e).__name__, amb), "Trainer (E=%d, NB=%d, NV=%d, %s) raised %s: %s" % (E, NB, NV, amb, type(e).__name__, str(e)[:200]),
+                          dict(E=E, NB=NB, NV=NV, NT=1 + (seed % 2), evaluator=False, callbacks=False, seed=seed, ambient=amb, do_fit=do_fit))
+            continue
         traces.append(tr)
         infos.append(info)
     if not traces:
